@@ -20,7 +20,7 @@ RULE = ('(schema, value) pairs as in C01 (all primitive / logical / named / recu
         'size 1, 2, 3 x positive counts / negative counts with byte sizes. non-trivial = distinct layouts that '
         'differ from the implementation\'s own bytes (i.e. the value contains a non-empty array or map); plus the serde writer on 12 corpus '
         'types x target block sizes {none,1,16,64,large}, its bytes read by the strict block auditor and the specification decoder; '
-        'plus padded (overlong) variable-length integers in every position (datum, length, block count, block size, branch index), '
+        'plus padded (overlong) variable-length integers in every position (datum, length, block count, block size, branch index) and generated ones stretched to 2..11 bytes (the decoder\'s ten-byte limit crossed both ways), '
         'the witness of C02_audit_only_spec_refuted, read by the implementation and by the model')
 
 def gen_cases(tier, seed):
@@ -191,10 +191,57 @@ OVERLONG = [
     ('{"type":"record","name":"r","fields":[{"name":"a","type":"long"},{"name":"b","type":"string"}]}', 'b68000868000666f6f', '3606666f6f'),
 ]
 
-def overlong(run, exe, drv):
+def _varint(v):
+    n = (v << 1) if v >= 0 else ((-v) << 1) - 1
+    out = []
+    while True:
+        if n < 128:
+            out.append(n)
+            return out
+        out.append(128 + n % 128)
+        n //= 128
+
+def _padded(b, total):
+    """the minimal variable-length integer b stretched to [total] bytes with empty continuation groups"""
+    if total <= len(b):
+        return list(b)
+    return b[:-1] + [b[-1] | 0x80] + [0x80] * (total - len(b) - 1) + [0x00]
+
+def gen_overlong(tier, seed):
+    """generated padded integers: datum, array count and items, string length; total lengths up to 11 bytes, so that
+    the decoder's own limit (ten bytes, avro/src/util.rs decode_variable) is crossed in both directions"""
+    rng = Rng(seed).fork(77)
+    n = 150 if tier == 'quick' else 6000
+    out = []
+    def val(r, bits):
+        k = r.range(0, bits - 1)
+        v = r.below(1 << k) + (1 << k) - 1 if k else r.below(2)
+        v = min(v, (1 << (bits - 1)) - 1)
+        return -v - 1 if r.chance(1, 2) else v
+    for i in range(n):
+        r = rng.fork(i)
+        kind = r.choice(['long', 'long', 'int', 'array', 'string'])
+        if kind in ('long', 'int'):
+            b = _varint(val(r, 64 if kind == 'long' else 32))
+            out.append(('"%s"' % kind, bytes(_padded(b, r.range(len(b) + 1, 11))).hex(), bytes(b).hex()))
+        elif kind == 'array':
+            items = [_varint(val(r, 64)) for _ in range(r.range(1, 3))]
+            cnt = _varint(len(items))
+            pad = _padded(cnt, r.range(len(cnt), 10)) + sum((_padded(b, r.range(len(b), 11)) for b in items), []) + _padded([0], r.range(1, 10))
+            mini = cnt + sum(items, []) + [0]
+            if pad != mini:
+                out.append(('{"type":"array","items":"long"}', bytes(pad).hex(), bytes(mini).hex()))
+        else:
+            t = [r.range(97, 122) for _ in range(r.range(0, 5))]
+            ln = _varint(len(t))
+            out.append(('"string"', bytes(_padded(ln, r.range(len(ln) + 1, 11)) + t).hex(), bytes(ln + t).hex()))
+    return out
+
+def overlong(run, exe, drv, tier='quick', seed=1):
     """the witness of C02_audit_only_spec_refuted and its relatives on the implementation: a padded integer is
     read as the minimal form by GenericDatumReader, by the schema-aware deserializer and by the model alike"""
     lines = []
+    OVERLONG = globals()['OVERLONG'] + gen_overlong(tier, seed)
     for i, (st, pad, mini) in enumerate(OVERLONG):
         lines.append('o%dp (decode2 %s #%s)' % (i, hx(st), pad))
         lines.append('o%dm (decode2 %s #%s)' % (i, hx(st), mini))
@@ -242,7 +289,7 @@ def run(tier, seed):
     lines, meta = gen_cases(tier, seed)
     evaluate(run_, lines, meta, exe, drv)
     serde_audit(run_, exe, drv, tier, seed)
-    overlong(run_, exe, drv)
+    overlong(run_, exe, drv, tier, seed)
     return fw.finish(run_, 'theorems C02_* (specification relation) + certified-layout differential check', RULE, search)
 
 def search(run_):
